@@ -8,6 +8,7 @@ import (
 	"go/ast"
 	"go/token"
 	"go/types"
+	"regexp"
 	"strings"
 
 	"golang.org/x/tools/go/types/typeutil"
@@ -30,7 +31,7 @@ func runC17(w *World, r *Report) {
 	r.Rule("nopanic", "the width-copy helper cannot index out of range; oversize and negative values take the error return", 2)
 	r.Rule("nomutate", "the builder leaves its value and mask arguments untouched and does not retain them", 2)
 	r.Rule("errprop", "errors of the lookup and of the width check reach the caller; no return is (nil, nil)", 4)
-	r.Rule("maskargs", "with an explicit width the window-mask helper is given the caller's width; only the one-argument form uses the data's bit length", 1)
+	r.Rule("maskargs", "the data's bit length stands in for the window width only under conditions on the number of window arguments, never because a width is 0", 1)
 	r.Rule("errsource", "an error the builder returns comes from the registry lookup, the mask test or the width-copy helper", 2)
 	r.Rule("maskform", "the window mask helper yields exactly 'length ones starting at bit start' on every path", 1)
 	r.Rule("maskcheck", "a value with a bit outside the mask takes the error return", 1)
@@ -301,47 +302,46 @@ func runC17(w *World, r *Report) {
 				r.OK("masksource", nb.Key, "", npos, fmt.Sprintf("every one of the %d assignments of the mask is a call of openflow13.rangeMask", nsrc), true)
 			}
 		}
-		// maskargs: what the window-mask helper is asked for. With an explicit width (two or three window
-		// arguments) the width handed over is the caller's second argument itself; only the one-argument form
-		// takes the width from the data. (A width that falls back to the data's bit length whenever it is 0
-		// turns the empty window, which must refuse every non-zero value, into a window of the data's size.)
-		if rmf := w.Funcs["openflow13.rangeMask"]; rmf != nil {
+		// maskargs: where the width may come from the data. The one-argument form takes the width from the
+		// data's bit length; with an explicit width (two or three window arguments) the width is the caller's,
+		// also when it is 0 — the empty window, which must refuse every non-zero value. The data's bit length
+		// (value.BitLen()) may therefore be asked for only under conditions on the NUMBER of window arguments;
+		// a BitLen taken under a test that some integer equals 0 ("no width given") turns an explicit 0 into the
+		// data's size.
+		{
 			fs := w.Interpret(nb, "decode")
+			zeroTest := regexp.MustCompile(`^[A-Za-z_][A-Za-z0-9_.:\[\]*]*==0$`)
 			nCalls := 0
 			for _, c := range fs.Calls {
-				if c.Callee == nil || c.Callee.Origin() != rmf.Obj || len(c.Args) != 2 {
+				if c.Callee == nil || c.Callee.Name() != "BitLen" || c.Callee.Pkg() == nil || c.Callee.Pkg().Path() != "math/big" {
 					continue
 				}
-				// only calls made by the builder itself (the helper's own body is interpreted inline)
-				if w.Fset.Position(c.Pos).Filename != w.Fset.Position(nb.Decl.Pos()).Filename || c.Pos < nb.Decl.Pos() || c.Pos > nb.Decl.End() {
-					inPart := false
-					for _, p := range parts {
-						if c.Pos >= p.Decl.Pos() && c.Pos <= p.Decl.End() {
-							inPart = true
-						}
-					}
-					if !inPart {
-						continue
+				inPart := false
+				for _, p := range parts {
+					if c.Pos >= p.Decl.Pos() && c.Pos <= p.Decl.End() {
+						inPart = true
 					}
 				}
+				if !inPart {
+					continue
+				}
 				nCalls++
-				inst := fmt.Sprintf("call#%d", nCalls)
-				width := c.Args[1].valString()
-				one := strings.Contains(c.Guard, "len(arg:mask)==1") && !strings.Contains(c.Guard, "!(len(arg:mask)==1)")
-				many := strings.Contains(c.Guard, "!(len(arg:mask)==1)") || strings.Contains(c.Guard, "1<len(arg:mask)") || strings.Contains(c.Guard, "len(arg:mask)==2") || strings.Contains(c.Guard, "len(arg:mask)==3")
-				switch {
-				case width == "arg:mask[*]" && !one:
-					r.OK("maskargs", nb.Key, inst, w.Pos(c.Pos), "width = the caller's width argument", true)
-				case strings.Contains(width, "BitLen()") && !strings.Contains(width, "join(") && !strings.Contains(width, "ite(") && one:
-					r.OK("maskargs", nb.Key, inst, w.Pos(c.Pos), "one-argument form: width = bit length of the data", true)
-				case strings.Contains(width, "BitLen()") && (many || !one):
-					r.Fail(VViolation, "maskargs", nb.Key, inst, w.Pos(c.Pos), "the window-mask helper is given the width "+width+" under ["+c.Guard+"]: on a path with an explicit width argument the data's bit length can take its place, so an explicit width of 0 (the empty window) yields a window as wide as the data instead of an error")
-				default:
-					r.Fail(VUndecided, "maskargs", nb.Key, inst, w.Pos(c.Pos), "the width handed to the window-mask helper is "+width+" under ["+c.Guard+"]: neither the caller's width argument nor the one-argument form's bit length")
+				inst := fmt.Sprintf("bitlen#%d", nCalls)
+				bad := ""
+				for _, cj := range conjunctsOf(c.Guard) {
+					cj = strings.TrimSpace(cj)
+					if zeroTest.MatchString(cj) && !strings.HasPrefix(cj, "len(") {
+						bad = cj
+					}
+				}
+				if bad != "" {
+					r.Fail(VViolation, "maskargs", nb.Key, inst, w.Pos(c.Pos), "the data's bit length is taken as the window width under ["+c.Guard+"]: the test "+bad+" makes an explicit width of 0 (the empty window, which must refuse every non-zero value) indistinguishable from 'no width given', and the window becomes as wide as the data")
+				} else {
+					r.OK("maskargs", nb.Key, inst, w.Pos(c.Pos), "the data's bit length is used under ["+c.Guard+"], a condition on the number of window arguments", true)
 				}
 			}
 			if nCalls == 0 {
-				r.Fail(VUndecided, "maskargs", nb.Key, "", npos, "no call of the window-mask helper found in the builder's interpretation")
+				r.OK("maskargs", nb.Key, "bitlen", npos, "the builder never takes a width from the data's bit length", false)
 			}
 		}
 		if maskObj == nil || valueObj == nil {
